@@ -44,6 +44,11 @@ PushStr(o, s, r) == /\ r = Len(strs[o])
 PushStrNoIdx(o, s) == strs' = WithS(o, Append(strs[o], s)) /\ mode' = WithM(o, "none")
 PushStrRefused(o, s) == UNCHANGED strvars
 
+(* extend(xs): a bulk push; the indices returned are the positions of the new strings *)
+ExtendStr(o, xs, r) == /\ r = [i \in 1..Len(xs) |-> Len(strs[o]) + i - 1]
+                       /\ strs' = WithS(o, strs[o] \o xs)
+                       /\ mode' = WithM(o, "none")
+
 (* sort: the insertion-order view is untouched; the object now offers a sorted view *)
 SortStr(o, kind) == /\ kind \in {"lex", "len", "custom"}
                     /\ mode' = WithM(o, kind) /\ UNCHANGED strs
@@ -60,16 +65,33 @@ MaintenanceStr(o) == UNCHANGED strvars
 (*   "from_sorted"   accepts only a sorted list and keeps it as it is (duplicates included)   *)
 (*   "from_sortable" sorts a SortableStrVec: c sorted and a permutation of the input          *)
 Build(o, kind, input, c) ==
-    /\ \/ kind = "from_strings" /\ StrictlyLexSorted(c) /\ SElems(c) = SElems(input)
+    /\ \/ kind = "from_iter" /\ c = input                       \* SortableStrVec::from_iter keeps the order given
+       \/ kind = "from_strings" /\ StrictlyLexSorted(c) /\ SElems(c) = SElems(input)
        \/ kind = "from_sorted" /\ LexSorted(input) /\ c = input
        \/ kind = "from_sortable" /\ LexSorted(c) /\ IsPermutation(c, input)
-    /\ strs' = WithS(o, c) /\ mode' = WithM(o, "lex")       \* the content itself is the sorted view
+    /\ strs' = WithS(o, c) /\ mode' = WithM(o, IF kind = "from_iter" THEN "none" ELSE "lex")   \* zo: the content itself is sorted
 BuildRefused(o) == UNCHANGED strvars
 
 (* find / find_exact / contains: Some(i) must point at an equal string; None only if absent *)
 Find(o, s, r) == /\ IF r = None THEN s \notin SElems(strs[o])
                     ELSE r[1] < Len(strs[o]) /\ strs[o][r[1] + 1] = s
                  /\ UNCHANGED strvars
+(* count_prefix(p): the number of stored strings that start with p *)
+IsPrefix(p, x) == Len(p) <= Len(x) /\ SubSeq(x, 1, Len(p)) = p
+CountPrefix(o, p, r) == /\ r = Cardinality({ i \in 1..Len(strs[o]) : IsPrefix(p, strs[o][i]) })
+                        /\ UNCHANGED strvars
+(* range(a, b) of a sorted vector: exactly the stored strings x with a <= x < b, in order (with *)
+(* all their duplicates); nothing when a > b                                                    *)
+RangeStr(o, a, b, r) ==
+    LET s == strs[o]
+        I == { i \in 1..Len(s) : LexLeq(a, s[i]) /\ LexLess(s[i], b) } IN
+    /\ LexSorted(s)
+    /\ IF I = {} THEN r = <<>>
+       ELSE LET lo == CHOOSE i \in I : \A j \in I : i <= j
+                hi == CHOOSE i \in I : \A j \in I : j <= i IN
+            I = lo..hi /\ r = SubSeq(s, lo, hi)
+    /\ UNCHANGED strvars
+
 (* binary search in the sorted view sv reported by the same event: Ok(pos) -> sv[pos] = s;   *)
 (* Err allowed when the string is absent or the object offers no lexicographic view           *)
 BinarySearch(o, s, ok, pos, sv) ==
@@ -83,6 +105,8 @@ BinarySearch(o, s, ok, pos, sv) ==
 (*      has_sorted, sorted (the sorted view: get_sorted / iter_sorted)]                        *)
 ObsStr(s, m, p) ==
     /\ p.len = Len(s)
+    /\ \A i \in 1..Len(p.views) : p.views[i] = s             \* twins of get(i) (get_by_id ...)
+    /\ \A i \in 1..Len(p.alt_len) : p.alt_len[i] = Len(s)    \* twins of len() (is_empty, statistics)
     /\ p.get_ok /\ p.c = s
     /\ p.oob = None
     /\ p.has_it => p.it = s
